@@ -1433,7 +1433,9 @@ def unique(arr, values=False):
 
     s = arr.argsort()
 
-    val = arr[0]
+    # start from the smallest element, not from the first one
+    val = arr[s[0]]
+    keep[0] = s[0]
     i = 1
     nkeep = 0
     while i < n:
